@@ -179,17 +179,23 @@ def tagsOf (sys : Sys) (op : Op) (ret : Ret) : String :=
 def nat? (s : String) : Option Nat :=
   if s.isEmpty || !(s.all fun c => '0' ≤ c && c ≤ '9') then none else s.toNat?
 
+/-- an amount: a natural, `b0` / `b1` (False / True: bool is an int), `s<natural>` (an instance of an int subclass) - for the
+    ledger all of them are the number -/
+def amt? (s : String) : Option Nat :=
+  if s == "b0" then some 0 else if s == "b1" then some 1
+  else if s.startsWith "s" then nat? (s.drop 1).toString else nat? s
+
 def parseOp : List String → Option Op
   | ["consume", i, cost, cur, d, p] => do
     let c ← curOf cur
-    pure (.consume (← nat? i) (← nat? cost) c ((← nat? d) == 1) (← nat? p))
+    pure (.consume (← nat? i) (← amt? cost) c ((← nat? d) == 1) (← nat? p))
   | ["regen", i, n, cur] => do
     let c ← curOf cur
-    pure (.regenerate (← nat? i) (← nat? n) c)
+    pure (.regenerate (← nat? i) (← amt? n) c)
   | ["transfer", i, j, n, cur] => do
     let c ← curOf cur
-    pure (.transfer (← nat? i) (← nat? j) (← nat? n) c)
-  | ["convert", i, n] => do pure (.convert (← nat? i) (← nat? n))
+    pure (.transfer (← nat? i) (← nat? j) (← amt? n) c)
+  | ["convert", i, n] => do pure (.convert (← nat? i) (← amt? n))
   | ["dorm", i] => do pure (.dorm (← nat? i))
   | ["wake", i] => do pure (.wake (← nat? i))
   | ["interest", i] => do pure (.interest (← nat? i))
@@ -221,32 +227,24 @@ def applyOp (d : DSt) (op : Op) : DSt × Ret × List (Nat × MState) :=
 def raceLine (d : DSt) (k : Nat) (a b : Op) : DSt × String :=
   let n := d.sys.length
   if ((opStores a) ++ (opStores b)).any (fun i => i ≥ n) then (d, "no-such-store") else
-  let fin (d' : DSt) (ra rb : Ret) : DSt × String :=
-    (d', joinSp ([showRet ra, showRet rb] ++ d'.sys.flatMap (fun s => ["|", showStore s])) ++ " ## race")
-  if k = 1 then
-    let (d1, rb, _) := applyOp d b
-    let (d2, ra, _) := applyOp d1 a
-    fin d2 ra rb
-  else
+  -- the two calls that run under a lock with `_update_state`, in order, and the colony the first of them starts from:
+  -- only needed to advance the observer scripts' call counters between them; the outcome is the model's `race`
+  let plan : Sys × Op × Op :=
+    if k = 1 then (d.sys, b, a) else
     match a with
     | .transfer i j amt cur =>
       match d.sys[i]? with
       | some s =>
-        let w := withdraw s amt cur
-        if w.2 && k = 2 then
-          let d0 : DSt := { d with sys := d.sys.set i w.1 }
-          let (d1, rb, _) := applyOp d0 b
-          let (d2, rdep, _) := applyOp d1 (.regenerate j amt cur)
-          fin d2 (match rdep with | .raised e => .raised e | _ => .bool true) rb
-        else
-          let (d1, ra, _) := applyOp d a
-          let (d2, rb, _) := applyOp d1 b
-          fin d2 ra rb
-      | Option.none => (d, "no-such-store")
-    | _ =>
-      let (d1, ra, _) := applyOp d a
-      let (d2, rb, _) := applyOp d1 b
-      fin d2 ra rb
+        if (withdraw s amt cur).2 && k == 2 then (d.sys.set i (withdraw s amt cur).1, b, .regenerate j amt cur)
+        else (d.sys, a, b)
+      | Option.none => (d.sys, a, b)
+    | _ => (d.sys, a, b)
+  let d0 : DSt := { d with sys := plan.1 }
+  let (d1, _, _) := applyOp d0 plan.2.1
+  let (d2, _, _) := applyOp d1 plan.2.2
+  let r := race floatCls d0.obs d1.obs d.sys k a b
+  ({ d2 with sys := r.1 },
+    joinSp ([showRet r.2.1, showRet r.2.2] ++ r.1.flatMap (fun s => ["|", showStore s])) ++ " ## race")
 
 def stepLine (d : DSt) (toks : List String) : DSt × String :=
   let sys := d.sys
